@@ -55,6 +55,41 @@ pub fn corr(ctx: &mut Ctx) {
     if !matches!(r, Ok(Err(_))) {
         ctx.oracle_failure(serde_json::json!({"kind":"impl_violates_property","key":"missing-file","what":"reload_json on a missing file did not return Err","got":describe(&r)}));
     }
+    // "missing" in every shape: the directory itself does not exist (its parent holds an intact parameters.json of OTHER parameters,
+    // so that any fallback is visible), the path is a plain file, the path is the json file itself, a sibling directory holds a dump
+    {
+        let root = PathBuf::from(format!("{}/nest", ctx.outdir));
+        let _ = std::fs::remove_dir_all(&root);
+        std::fs::create_dir_all(root.join("sibling")).unwrap();
+        let other = SetSketchParams::new(1.5, 77, 3.25, 1234);
+        other.dump_json(&root).unwrap();
+        other.dump_json(&root.join("sibling")).unwrap();
+        let before = std::fs::read(root.join("parameters.json")).unwrap();
+        std::fs::write(root.join("plainfile"), b"not a directory").unwrap();
+        for (name, path) in [("directory does not exist (parent holds a dump)", root.join("x")), ("nested missing directories", root.join("x").join("y")),
+                             ("path is a plain file", root.join("plainfile")), ("path is the json file itself", root.join("parameters.json")),
+                             ("empty directory next to a sibling with a dump", { let e = root.join("empty"); std::fs::create_dir_all(&e).unwrap(); e })] {
+            ctx.begin_case(&format!("pj missing: {}", name));
+            ctx.mark_nontrivial();
+            ctx.count("missing file in several shapes (nested / plain file / sibling)");
+            let pp = path.clone();
+            let r = catch(move || SetSketchParams::reload_json(&pp));
+            ctx.line("pj missing", &describe(&r));
+            if !matches!(r, Ok(Err(_))) {
+                ctx.oracle_failure(serde_json::json!({"kind":"impl_violates_property","key":"missing-file-shapes","what":"reload_json where no parameters.json exists at the given directory did not return Err","shape":name,"got":describe(&r)}));
+            }
+            // a dump to a directory that does not exist must not write anywhere else (it may fail)
+            if name.contains("does not exist") || name.contains("nested") {
+                let pp = path.clone();
+                let _ = catch(move || SetSketchParams::new(1.001, 4096, 20.0, 65534).dump_json(&pp));
+                let after = std::fs::read(root.join("parameters.json")).unwrap_or_default();
+                if after != before {
+                    ctx.oracle_failure(serde_json::json!({"kind":"impl_violates_property","key":"dump-elsewhere","what":"dump_json to a directory that does not exist modified the parameters.json of another directory","shape":name}));
+                    let _ = other.dump_json(&root);
+                }
+            }
+        }
+    }
     let nfiles = ctx.n(60, 1500);
     let mut prefixes = 0u64;
     for c in 0..nfiles {
